@@ -1,0 +1,195 @@
+//go:build verif
+
+package server
+
+import (
+	"net/http"
+	"sort"
+
+	"github.com/resgateio/resgate/server/rescache"
+	"github.com/resgateio/resgate/server/rpc"
+)
+
+func verifKick(c *wsConn) {
+	if h := rescache.VerifHooks; h != nil && h.Kick != nil {
+		h.Kick(c, c.cid)
+	}
+}
+
+func verifBegin(c *wsConn) {
+	if h := rescache.VerifHooks; h != nil && h.Begin != nil {
+		h.Begin(c, c.cid)
+	}
+}
+
+func verifYield(c *wsConn) {
+	if h := rescache.VerifHooks; h != nil && h.Yield != nil {
+		h.Yield(c, c.cid)
+	}
+}
+
+func verifEnd(c *wsConn) {
+	if h := rescache.VerifHooks; h != nil && h.End != nil {
+		h.End(c, c.cid)
+	}
+}
+
+func verifFrame(c *wsConn, data []byte) {
+	if h := rescache.VerifHooks; h != nil && h.Frame != nil {
+		h.Frame(c, c.cid, data)
+	}
+}
+
+func verifHTTPWait(c *wsConn) {
+	if h := rescache.VerifHooks; h != nil && h.HTTPWait != nil {
+		h.HTTPWait(c, c.cid)
+	}
+}
+
+// VerifConn is a handle to a socket-less client connection created by the
+// verification harness.
+type VerifConn struct {
+	c *wsConn
+}
+
+// VerifNewConn creates a connection the same way wsHandler does, but without
+// a WebSocket. Returns nil if the service is stopped or stopping.
+func (s *Service) VerifNewConn(r *http.Request) *VerifConn {
+	c := s.newWSConn(r, versionLegacy)
+	if c == nil {
+		return nil
+	}
+	return &VerifConn{c: c}
+}
+
+// CID returns the connection ID.
+func (vc *VerifConn) CID() string { return vc.c.cid }
+
+// Actor returns the value passed as actor to the hooks.
+func (vc *VerifConn) Actor() interface{} { return vc.c }
+
+// Inject queues a client frame the same way wsConn.listen does.
+func (vc *VerifConn) Inject(frame []byte) bool {
+	c := vc.c
+	return c.Enqueue(func() {
+		rpc.HandleRequest(frame, c)
+	})
+}
+
+// DisposeAsync queues the disposal of the connection, like wsConn.Dispose but
+// without waiting for it to complete.
+func (vc *VerifConn) DisposeAsync() bool {
+	c := vc.c
+	return c.Enqueue(func() {
+		c.dispose()
+	})
+}
+
+// VerifSub is a read-only snapshot of a Subscription.
+type VerifSub struct {
+	RID          string
+	State        int // 0 disposed 1 loading 2 loaded 3 ready 4 tosend 5 sent 6 deleted
+	Direct       int
+	Indirect     int
+	IndirectSent int
+	HasAccess    bool
+	QueueFlag    int
+	Flags        int
+	EventQueue   int
+	ReadyCBs     int
+	AccessCBs    int
+	HasResource  bool
+	Version      uint
+	Err          string
+	Refs         map[string]int
+}
+
+// VerifConnSnap is a read-only snapshot of a connection.
+type VerifConnSnap struct {
+	CID       string
+	Token     string
+	TID       string
+	Disposing bool
+	Protocol  int
+	QueueLen  int
+	Subs      []VerifSub
+}
+
+func verifConnSnap(c *wsConn) VerifConnSnap {
+	c.mu.Lock()
+	ql := len(c.queue)
+	c.mu.Unlock()
+	cs := VerifConnSnap{
+		CID:       c.cid,
+		Token:     string(c.token),
+		TID:       c.tid,
+		Disposing: c.disposing,
+		Protocol:  c.protocolVer,
+		QueueLen:  ql,
+	}
+	for rid, s := range c.subs {
+		vs := VerifSub{
+			RID:          rid,
+			State:        int(s.state),
+			Direct:       s.direct,
+			Indirect:     s.indirect,
+			IndirectSent: s.indirectsent,
+			HasAccess:    s.access != nil,
+			QueueFlag:    int(s.queueFlag),
+			Flags:        int(s.flags),
+			EventQueue:   len(s.eventQueue),
+			ReadyCBs:     len(s.readyCallbacks),
+			AccessCBs:    len(s.accessCallbacks),
+			HasResource:  s.resourceSub != nil,
+			Version:      s.version,
+		}
+		if s.err != nil {
+			vs.Err = s.err.Error()
+		}
+		if len(s.refs) > 0 {
+			vs.Refs = make(map[string]int, len(s.refs))
+			for k, r := range s.refs {
+				vs.Refs[k] = r.count
+			}
+		}
+		cs.Subs = append(cs.Subs, vs)
+	}
+	sort.Slice(cs.Subs, func(i, j int) bool { return cs.Subs[i].RID < cs.Subs[j].RID })
+	return cs
+}
+
+// Snapshot returns the connection's state. It must only be called while the
+// connection worker is idle or parked.
+func (vc *VerifConn) Snapshot() VerifConnSnap {
+	return verifConnSnap(vc.c)
+}
+
+// VerifSnapshot returns the state of all registered connections, sorted by
+// cid. It must only be called while all connection workers are idle or parked.
+func (s *Service) VerifSnapshot() []VerifConnSnap {
+	s.mu.Lock()
+	conns := make([]*wsConn, 0, len(s.conns))
+	for _, c := range s.conns {
+		conns = append(conns, c)
+	}
+	s.mu.Unlock()
+	out := make([]VerifConnSnap, 0, len(conns))
+	for _, c := range conns {
+		out = append(out, verifConnSnap(c))
+	}
+	sort.Slice(out, func(i, j int) bool { return out[i].CID < out[j].CID })
+	return out
+}
+
+// VerifHasConn reports whether a connection with the cid is registered.
+func (s *Service) VerifHasConn(cid string) bool {
+	s.mu.Lock()
+	defer s.mu.Unlock()
+	_, ok := s.conns[cid]
+	return ok
+}
+
+// VerifCache returns the service's cache.
+func (s *Service) VerifCache() *rescache.Cache {
+	return s.cache
+}
